@@ -28,6 +28,9 @@ ALPHA = ["a", "b", "c", "é", "€", "😀", "0", "_", " "]
 # ties between the function bodies translated from the Rust source on every run (Gen/Fns.lean) and the hand-written models
 THEOREM_MODULES.append("Yarel.Props.FnsTie.Hash")
 REQUIRED_THEOREMS += ['fnv_write_tie']
+# the probe loop of the intern table (find_index, ObjStringStore::get), translated from vm.rs on every run
+THEOREM_MODULES.append("Yarel.Props.FnsTie.Intern")
+REQUIRED_THEOREMS += ['store_find_index_tie', 'store_find_index_is_findIndex', 'store_get_tie']
 
 
 def gen_text(rng, maxlen=4):
@@ -247,8 +250,23 @@ def correspondence(ctx, model_ok=True):
                 failures.append({"what": "one content built by different routes is not one string", "program": progs[i],
                                  "observed": st if st else r, "signature": "routes: " + str(st.get("printed", st.get("status")))[:80],
                                  "failing_input": True})
+    # (d) volume: tens of thousands of distinct contents, each built by several routes while the table is under load and grows;
+    # every pair of routes must give one string (==, map key).  A defect that needs a particular pair of slots (neighbouring homes,
+    # an entry displaced over another one, a slot vacated in a probe chain) shows up in a fraction of the contents.
+    n_d = 60000 if ctx.thorough else 20000
+    vol = volume_programs(n_d)
+    d_lines = [vlib.case_line("d%d" % i, ["S:" + vlib.hx(p)], steps=400000000) for i, p in enumerate(vol)]
+    real_d = vlib.run_real(ctx.runner, d_lines)
+    for i, r in enumerate(real_d):
+        st = (r.get("steps") or [{}])[0]
+        if st.get("status") != "ok" or st.get("printed") != ["0"]:
+            failures.append({"what": "among %d contents each built by several routes, some are not one string (the program prints how many "
+                                     "comparisons failed, then the first content that failed)" % n_d, "program": vol[i],
+                             "observed": st if st else r, "signature": "volume routes: " + str(st.get("printed", st.get("status")))[:80],
+                             "failing_input": True})
     cov = {
-        "evaluations": len(seqs) + n_b + n_c,
+        "evaluations": len(seqs) + n_b + n_c + len(vol),
+        "volume_contents": n_d * len(vol),
         "distinct_nontrivial": len(nontrivial),
         "rule": "op sequences over a random hash function H of 6 profiles (special bit patterns - zero/ones halves, single bits, 0 -, identical full hashes, equal low 12 bits, "
                 "homes at the array end, 3 hash values, random) with repeated texts; non-trivial = >=3 distinct texts and "
@@ -265,6 +283,31 @@ def correspondence(ctx, model_ok=True):
 
 def yl_str(s):
     return '"' + s.replace("\\", "\\\\").replace('"', '\\"').replace("$", "\\$") + '"'
+
+
+def volume_programs(n):
+    """One program per template; i runs over 0..n-1; the content is built by interpolation first (the route that creates the most
+    temporaries), then by routes that do not repeat its intermediate strings."""
+    out = []
+    for tmpl, alt in (('"${i}px"', 'String.from(i) + "px"'), ('"w${i}"', '"w" + String.from(i)'), ('"${i}"', 'String.from(i)'),
+                      ('"${i}.${i + 1}"', 'String.from(i) + "." + String.from(i + 1)'), ('"${i * 0.5}"', 'String.from(i * 0.5)'),
+                      ('"k${i}=${i % 7 == 0}"', '"k" + String.from(i) + "=" + String.from(i % 7 == 0)')):
+        src = ["var bad = 0; var first = nil; var i = 0;",
+               "while i < %d {" % n,
+               "  var a = %s;" % tmpl,
+               "  var n = a.len();",
+               "  var az = a + \"z\";",
+               "  var b1 = az[0..1] + az[1..n];",
+               "  var b2 = az[0..(n - 1)] + az[(n - 1)..n];",
+               "  var b3 = (a + \"#\").replace(\"#\", \"\");",
+               "  var b4 = %s;" % alt,
+               "  var m = {a: 1};",
+               "  for b in [b1, b2, b3, b4] { if !(a == b) || !(b == a) || !m.has_key(b) { bad = bad + 1; if first == nil { first = a; } } }",
+               "  i = i + 1;",
+               "}",
+               "print(bad); if first != nil { print(first); }"]
+        out.append("\n".join(src))
+    return out
 
 
 def route_program(rng):
